@@ -112,6 +112,17 @@ __CPROVER_ensures((RV == CKR_OK && !SES(NULL_OUT)) ==> (OUT(prim_n) == 1 && OUT(
 __CPROVER_ensures((RV != CKR_OK && RV != CKR_BUFFER_TOO_SMALL && ACTIVE(0x4)) ==> (SFX(RESETOP_N) == 1 && UNTOUCHED))
 __CPROVER_ensures(SFX(SETOPTYPE_N) == 0 && CNT(SET) == 0)
 __CPROVER_assigns(__CPROVER_object_whole(vp_out), VP_SOFTHSM_FRAME);
+/* C_DigestFinal: the same fixed size and protocol at the end of a multi-part digest */
+CK_RV vp_digestfinal1(void)
+__CPROVER_requires(PRE && IN(size) <= 0x7fffffff)
+__CPROVER_ensures((SES(INIT) && SES(VALID) && SES(OPTYPE) != 0x4) ==> (RV == CKR_OPERATION_NOT_INITIALIZED && VP_NO_EFFECT && OUT(fin_n) == 0 && UNTOUCHED))
+__CPROVER_ensures((ACTIVE(0x4) && SES(NULL_OUT)) ==> (RV == CKR_OK && OUT(len_after) == SIZE && SFX(RESETOP_N) == 0 && OUT(fin_n) == 0))
+__CPROVER_ensures((ACTIVE(0x4) && !SES(NULL_OUT) && IN(buflen) < SIZE) ==> (RV == CKR_BUFFER_TOO_SMALL && OUT(len_after) == SIZE && SFX(RESETOP_N) == 0 && OUT(fin_n) == 0 && UNTOUCHED))
+__CPROVER_ensures((RV == CKR_OK && !SES(NULL_OUT)) ==> (OUT(fin_n) == 1 && OUT(prim_n) == 0 && IN(prim_ok) && PL == SIZE && OUT(len_after) == SIZE && SIZE <= IN(buflen) && SFX(RESETOP_N) == 1 && OUT(out_w) == ((IN(w) < SIZE) ? vp_in_sig[IN(w) < VP_SIG ? IN(w) : 0] : 0xAA)))
+__CPROVER_ensures((RV != CKR_OK && RV != CKR_BUFFER_TOO_SMALL && ACTIVE(0x4)) ==> (SFX(RESETOP_N) == 1 && UNTOUCHED))
+__CPROVER_ensures(SFX(SETOPTYPE_N) == 0 && CNT(SET) == 0)
+__CPROVER_assigns(__CPROVER_object_whole(vp_out), VP_SOFTHSM_FRAME);
+void vp_call_C_DigestFinal(void) { vp_rv = vp_digestfinal1(); }
 void vp_call_C_SignFinal(void) { vp_rv = vp_signfinal1(); }
 void vp_call_C_Digest(void) { vp_rv = vp_digest1(); }
 void vp_call_C_Decrypt(void) { vp_rv = vp_decrypt1(); }
@@ -125,4 +136,5 @@ void h_encrypt1(void) { HAV(); vp_call_C_Encrypt(); VP_COVER(vp_rv == CKR_OK && 
 void h_decrypt1(void) { HAV(); vp_call_C_Decrypt(); VP_COVER(vp_rv == CKR_OK && !SES(NULL_OUT) && PL == 5 && SIZE == 16); VP_COVER(vp_rv == CKR_OK && !SES(NULL_OUT) && PL == 0); VP_COVER(vp_rv == CKR_BUFFER_TOO_SMALL); VP_COVER(vp_rv == CKR_GENERAL_ERROR && OUT(prim_n) == 1 && IN(prim_ok)); VP_COVER(vp_rv == CKR_USER_NOT_LOGGED_IN); }
 void h_signfinal1(void) { HAV(); vp_call_C_SignFinal(); VP_COVER(vp_rv == CKR_OK && !SES(NULL_OUT) && MAC); VP_COVER(vp_rv == CKR_OK && !SES(NULL_OUT) && !MAC); VP_COVER(vp_rv == CKR_BUFFER_TOO_SMALL); VP_COVER(vp_rv == CKR_USER_NOT_LOGGED_IN); VP_COVER(vp_rv == CKR_GENERAL_ERROR); }
 void h_digest1(void) { HAV(); vp_call_C_Digest(); VP_COVER(vp_rv == CKR_OK && !SES(NULL_OUT) && SIZE == 16 && IN(datalen) == 0); VP_COVER(vp_rv == CKR_BUFFER_TOO_SMALL); VP_COVER(vp_rv == CKR_OK && SES(NULL_OUT)); VP_COVER(vp_rv == CKR_GENERAL_ERROR && OUT(fin_n) == 1); }
+void h_digestfinal1(void) { HAV(); vp_call_C_DigestFinal(); VP_COVER(vp_rv == CKR_OK && !SES(NULL_OUT) && SIZE == 16); VP_COVER(vp_rv == CKR_BUFFER_TOO_SMALL); VP_COVER(vp_rv == CKR_OK && SES(NULL_OUT)); VP_COVER(vp_rv == CKR_GENERAL_ERROR && OUT(fin_n) == 1); }
 void h_verify1(void) { HAV(); vp_call_C_Verify(); VP_COVER(vp_rv == CKR_OK && MAC); VP_COVER(vp_rv == CKR_OK && !MAC && RAW); VP_COVER(vp_rv == CKR_SIGNATURE_LEN_RANGE); VP_COVER(vp_rv == CKR_SIGNATURE_INVALID); }
